@@ -89,6 +89,7 @@ Matches(lp, t) ==
   CASE lp = "lower"  -> Len(t) > 0 /\ \A j \in 1..Len(t) : t[j] \in 97..122      \* ^[a-z]+$
     [] lp = "digit"  -> \E j \in 1..Len(t) : t[j] \in 48..57                      \* [0-9]
     [] lp = "startx" -> Len(t) > 0 /\ t[1] = 120                                  \* ^x
+    [] lp = "min3"   -> Len(t) >= 3                                                \* ^.{3,}$  (whitespace-sensitive)
     [] lp = "any"    -> TRUE                                                      \* .*
 
 Cmp(op, a, n) == CASE op = "<"  -> a < n
